@@ -10,7 +10,7 @@ from . import c10
 
 CFG = ("g++", "c++17")
 HEADER = c10.PRELUDE.split("typedef __int128 auv_i128;")[0] + '#include "c09.hh"\nusing namespace auv;\n'
-REP_PAIRS = [("int32_t", "int32_t"), ("int64_t", "int64_t"), ("int32_t", "int64_t"), ("int64_t", "int32_t"), ("int64_t", "double"), ("double", "double"),
+REP_PAIRS = [("int32_t", "int32_t"), ("int64_t", "int64_t"), ("int32_t", "int64_t"), ("int64_t", "int32_t"), ("int64_t", "double"), ("double", "double"), ("float", "double"), ("double", "float"), ("int32_t", "float"),
              ("float", "float"), ("double", "int64_t"), ("uint64_t", "uint64_t"), ("uint32_t", "uint64_t"), ("int32_t", "double")]
 
 
@@ -38,7 +38,7 @@ def prepare(i, idx, canary=False):
     mC = c10.rgcd([mU, mV, oU - oV])
     r1, r2 = mU / mC, mV / mC
     R, T = i["reps"]
-    cmp_ok = (r1 <= 1000 and r2 <= 1000 and R in ("int32_t", "int64_t", "double", "float") and abs(oU - oV) / mC < 2 ** 30
+    cmp_ok = (r1 <= 1000 and r2 <= 1000 and R in ("int32_t", "int64_t", "double", "float") and T in ("int32_t", "int64_t", "double", "float") and abs(oU - oV) / mC < 2 ** 30
               and abs(oU - oV) / c10.rgcd([w for w in (wU, wV) if w] or [F(1)]) < 2 ** 30)
     # x_ (unit U) minus the origin displacement (unit = common unit of the origin units) is an ordinary mixed-unit subtraction in the
     # calculation rep, so the library's implicit-conversion policy must admit both scalings: otherwise the conversion is refused by design
